@@ -328,9 +328,12 @@ class Program:
                 self.bodies[p] = b
         self.consts = {}
         self.adts = {}
+        self.adt_unit = {}
         for u in self.units:
             self.consts.update(u.consts)
             self.adts.update(u.adts)
+            for p in u.adts:
+                self.adt_unit[p] = u
 
     def body(self, path):
         return self.bodies.get(path)
